@@ -119,6 +119,46 @@ pub fn eval_motion(p: &[V3; 3], motion: &Iso, which: usize, delta: f64) -> (Vec<
     (fails, format!("{cls}:{sig}"))
 }
 
+/// Two image points moved apart (delta > 0) or together along the edge joining them, by `delta` each: the side between
+/// them changes by 2*delta while each point moves by delta only. Classified by the largest change of a side length.
+pub fn eval_pair(p: &[V3; 3], motion: &Iso, i: usize, j: usize, delta: f64) -> (Vec<(String, String)>, String) {
+    let mut fails = Vec::new();
+    let mut q = [motion.apply(p[0]), motion.apply(p[1]), motion.apply(p[2])];
+    let dir = normalize(sub(q[i], q[j]));
+    q[i] = add(q[i], scale(dir, delta));
+    q[j] = sub(q[j], scale(dir, delta));
+    let side = |t: &[V3; 3], a: usize, b: usize| dist(t[a], t[b]);
+    let worst = [(0, 1), (0, 2), (1, 2)].iter().map(|&(a, b)| (side(p, a, b) - side(&q, a, b)).abs()).fold(0.0, f64::max);
+    let cls = if worst < 0.005 - 1e-6 {
+        "pair-within-tolerance"
+    } else if worst > 0.005 + 1e-6 {
+        "pair-beyond-tolerance"
+    } else {
+        return (fails, "pair-on-the-edge:skipped".into());
+    };
+    let out = build_frame(p, &q);
+    match (&out, cls) {
+        (Outcome::Panic(m), _) => fails.push((format!("C17/panic/{cls}"), m.clone())),
+        (Outcome::Ok(f), "pair-within-tolerance") => {
+            if orthonormality_defect(&f.r) > 1e-12 || !f.is_finite() {
+                fails.push(("C17/not-a-proper-rotation".to_string(), "rotation part is not orthonormal with det +1 (two image points perturbed)".into()));
+            }
+        }
+        (Outcome::NotIsometry, "pair-beyond-tolerance") => {}
+        (o, "pair-beyond-tolerance") => fails.push((
+            "C17/non-congruent-accepted/pair".to_string(),
+            format!("a side of the image triangle differs by {worst} m (> 5 mm) although each point moved by {delta} m only; result {o:?}"),
+        )),
+        (o, _) => fails.push((format!("C17/congruent-rejected/{cls}"), format!("sides agree within {worst} m but the result is {o:?}"))),
+    }
+    let sig = match out {
+        Outcome::Ok(_) => "ok",
+        Outcome::NotIsometry => "not-isometry",
+        _ => "other",
+    };
+    (fails, format!("{cls}:{sig}"))
+}
+
 fn eval_degenerate(kind: usize) -> (Vec<(String, String)>, String) {
     let mut fails = Vec::new();
     let (p, q, want): ([V3; 3], [V3; 3], Outcome) = match kind {
@@ -261,6 +301,26 @@ pub fn run(_ctx: &Ctx) -> Report {
             r.fail(k, idx, case(), d);
         }
     });
+    // two image points perturbed at once (each by less than the tolerance, their distance by up to twice as much)
+    {
+        let pairs = [(0usize, 1usize), (0, 2), (1, 2), (2, 1)];
+        let deltas = [0.001, 0.0024, 0.0026, 0.004, 0.0049, -0.0026, -0.004];
+        let psizes = [tris.len(), mots.len(), pairs.len(), deltas.len()];
+        let pn = par::product(&psizes);
+        let prep = par::run(pn, |idx, r| {
+            let mut ix = [0usize; 4];
+            par::decode(idx, &psizes, &mut ix);
+            let (i, j) = pairs[ix[2]];
+            let (fails, sig) = eval_pair(&tris[ix[0]], &mots[ix[1]], i, j, deltas[ix[3]]);
+            r.states += 1;
+            r.transitions += 1;
+            r.sig(sig);
+            for (k, d) in fails {
+                r.fail(k, n + 500_000 + idx, json!({"kind":"pair","triangle": ix[0], "motion": ix[1], "i": i, "j": j, "delta": deltas[ix[3]]}), d);
+            }
+        });
+        rep.merge(prep);
+    }
     for kind in 0..6 {
         let (fails, sig) = eval_degenerate(kind);
         rep.states += 1;
@@ -343,7 +403,7 @@ pub fn run(_ctx: &Ctx) -> Report {
     }
     rep.traces_validated = rep.transitions;
     rep.rule = "triangles {unit, scalene, thin 1 mm, 10 m out, 1 km out} x rigid motions (4 axes x {0,30,90,179,180,-120 deg} x 3 translations) x perturbation of \
-                each image point along an edge by {0, +-1, +-4, +-4.9, +-5.1, +-6, +-50 mm} + degenerate triples (collinear source/target, coincident, scaled) + \
+                each image point along an edge by {0, +-1, +-4, +-4.9, +-5.1, +-6, +-50 mm} + two image points moved apart / together by {1, 2.4, 2.6, 4, 4.9 mm} each (classified by the largest change of a side) + degenerate triples (collinear source/target, coincident, scaled) + \
                 Frame::translation + forward_transformed on robots x poses x small frames; threshold sweep: rotation angle = ladder magnitude / half turn -+ ladder magnitude about 4 axes, perturbation 5 mm -+ ladder magnitude, triangles of ladder height; signature = (perturbation class, outcome)".into();
     rep.set("axes", json!({"triangles": tris.len(), "motions": mots.len(), "deltas_m": DELTAS.to_vec()}));
     rep
@@ -363,6 +423,14 @@ pub fn replay(case: &Value) -> Vec<String> {
             let v = |x: &Value| -> V3 { let a = x.as_array().unwrap(); [as_num(&a[0]), as_num(&a[1]), as_num(&a[2])] };
             eval_motion(&[v(&t[0]), v(&t[1]), v(&t[2])], &crate::common::stack::iso_from_json(&case["motion"]), case["which"].as_u64().unwrap() as usize, as_num(&case["delta"])).0
         }
+        "pair" => eval_pair(
+            &triangles()[case["triangle"].as_u64().unwrap() as usize],
+            &motions()[case["motion"].as_u64().unwrap() as usize],
+            case["i"].as_u64().unwrap() as usize,
+            case["j"].as_u64().unwrap() as usize,
+            as_num(&case["delta"]),
+        )
+        .0,
         "degenerate" => eval_degenerate(case["which"].as_u64().unwrap() as usize).0,
         "forward_transformed" => eval_forward_transformed(
             case["robot"].as_u64().unwrap() as usize,
